@@ -939,6 +939,28 @@ fn gen_kind(rng: &mut Rng) -> Kind {
     }
 }
 
+/// make some UTF8-column values invalid UTF-8 (only possible through the column writer API)
+fn corrupt_utf8(rng: &mut Rng, batches: &mut [Batch]) {
+    for b in batches.iter_mut() {
+        for v in b.iter_mut().flatten() {
+            if rng.chance(1, 3) {
+                match rng.usize(3) {
+                    0 => v.push(*rng.pick(&[0x80u8, 0xBF, 0xC0, 0xFF, 0xED])),
+                    1 => {
+                        if !v.is_empty() {
+                            let i = rng.usize(v.len());
+                            v[i] = *rng.pick(&[0xFFu8, 0x80, 0xC1, 0xF5]);
+                        }
+                    }
+                    _ => {
+                        v.truncate(v.len().saturating_sub(1));
+                    }
+                }
+            }
+        }
+    }
+}
+
 fn gen_batches(rng: &mut Rng, kind: Kind, nullable: bool, same_len_dec: bool) -> Vec<Batch> {
     let nb = 1 + rng.usize(4);
     let declen = 1 + rng.usize(4);
@@ -1057,6 +1079,9 @@ fn gen_case(rng: &mut Rng) -> (String, String) {
             // single value: pure truncation case
             batches = vec![vec![Some(gen_value(rng, kind))]];
         }
+        if kind == Kind::Utf8 && rng.chance(1, 6) {
+            corrupt_utf8(rng, &mut batches);
+        }
         let line = format!(
             "C07 stats {} {} {} {} {} {} {}",
             kind_name(kind), stl, cil, wbs, rowlimit, flags, show_batches(&batches)
@@ -1079,7 +1104,10 @@ fn gen_case(rng: &mut Rng) -> (String, String) {
         let bloom = if rng.bool() { 0 } else { 1 + rng.usize(4) as u8 };
         let cfg = Cfg { stl, cil, level, wbs, rowlimit, flags, bloom };
         let same = rng.chance(1, 2);
-        let batches = gen_batches(rng, kind, nullable, same);
+        let mut batches = gen_batches(rng, kind, nullable, same);
+        if kind == Kind::Utf8 && api == "cw" && rng.chance(1, 6) {
+            corrupt_utf8(rng, &mut batches);
+        }
         let line = format!(
             "C07 file {} {} {} {} {} {} {} {} {} {}",
             api, kind_name(kind), stl, cil, level, wbs, rowlimit, flags, bloom, show_batches(&batches)
@@ -1178,7 +1206,7 @@ fn main() {
         }
     } else {
         let mut rng = Rng::new(args.seed ^ 0xC07C07);
-        let n = n_cases(&args, 2500, 60000);
+        let n = n_cases(&args, 20000, 400000);
         for _ in 0..n {
             let (line, tags) = gen_case(&mut rng);
             let (ans, fails) = run_case_full(&line);
